@@ -247,6 +247,8 @@ def check(case):
             # one mechanistic parameter and one error model parameter (the last one), one after the other
             for k in sorted({(len(params) * 7) // 11, len(params) - 1}):
                 rest = np.delete(params, k)
+                # (the last evaluation before the fix was one WITH sensitivities: they are still switched on inside)
+                L.evaluateS1(params.copy())
                 # (the argument only has to be convertible to a dictionary: a list of pairs, a one-shot zip)
                 L.fix_parameters([(names_all[k], float(params[k]) * 1.7 + 0.3)])
                 L.fix_parameters(zip([names_all[k]], [float(params[k])]))
@@ -266,6 +268,31 @@ def check(case):
                 L.fix_parameters({names_all[k]: None})
                 case.equal(list(L.get_parameter_names()), names_all, 'names after releasing %r' % names_all[k])
                 case.close(L(params.copy()), want, rtol=1e-9, what='log-likelihood after releasing %r again' % names_all[k])
+
+    # Several parameters are fixed in ONE call whose dictionary lists them in another order than the model does (and with
+    # different values): every value lands on the parameter it is named for.
+    if s['oos'] is None and len(params) >= 3 and L.n_parameters() == len(params):
+        with case.clause('refix_multi'):
+            names_all = list(L.get_parameter_names())
+            n = len(params)
+            ks = sorted({0, min(ll['n_par'] - 1, 1), n - 1})         # mechanistic ones and the last error parameter
+            vals = {k: float(params[k]) * (1.0 + 0.13 * (j + 1)) for j, k in enumerate(ks)}
+            L.fix_parameters({names_all[k]: vals[k] for k in reversed(ks)})
+            full = params.copy()
+            for k in ks:
+                full[k] = vals[k]
+            free = [j for j in range(n) if j not in ks]
+            case.equal(list(L.get_parameter_names()), [names_all[j] for j in free],
+                       'names after fixing %r in one call' % [names_all[k] for k in reversed(ks)])
+            want_m = float(np.real(llbuild.ref_ll(ll, full)))
+            if free:
+                case.close(L(params[free].copy()), want_m, rtol=1e-9,
+                           what='log-likelihood after fixing %r in one call (dictionary in reverse model order)' % [
+                               names_all[k] for k in reversed(ks)])
+                case.close(np.sum(L.compute_pointwise_ll(params[free].copy())), want_m, rtol=1e-9,
+                           what='sum(pointwise) after fixing several parameters in one call')
+            L.fix_parameters({names_all[k]: None for k in ks})
+            case.close(L(params.copy()), want, rtol=1e-9, what='log-likelihood after releasing them again')
 
     # The user goes on using their own model object (e.g. for a second likelihood over the outputs in another order):
     # the likelihood constructed before keeps scoring its observations against its own outputs.
